@@ -492,9 +492,15 @@ def _norm(x):
     return ("repr", type(x).__name__, str(x))
 
 
-def _run(fn, q):
+def _run(fn, q, _retry=True):
     try:
         return ("ok", _norm(fn(q)))
+    except TypeError as e:
+        # CrossHair artefact: a memo dict of the moltype keyed by a (frozen)set of proxy strings ("__hash__ method should return an
+        # integer"); the failed attempt leaves the table filled, the second attempt is the method's real answer
+        if _retry and "__hash__ method should return an integer" in str(e):
+            return _run(fn, q, _retry=False)
+        return ("exc", type(e).__name__)
     except Exception as e:  # same failure on both sides counts as same answer
         return ("exc", type(e).__name__)
 
@@ -535,6 +541,13 @@ def mk_method(style, mt, method, step, rc):
     parent = PARENTS[mt]
     n = len(parent)
     fn = METHODS[method][0]
+    if fn is not None:
+        # warm-up outside tracing: lazily built tables / imports of the method (get_translation raised a TypeError the first
+        # time it ran under CrossHair tracing and not afterwards: a tracing artefact, not behaviour of the method)
+        try:
+            fn(_mk_seq(style, mt, parent))
+        except Exception:  # noqa
+            pass
 
     def check(a: Optional[int], b: Optional[int]) -> bool:
         """
